@@ -186,6 +186,9 @@ def post_from_points(ctx, call):
             ctx.skip("from_points", "frame not in general position")
             return
     m = np.asarray(_mat(call.result), dtype=complex)
+    if not np.all(np.isfinite(m)):
+        ctx.judge("from_points", False, [src, dst], what="the matrix of the transformation has non-finite entries", op="from_points", observed=m, nontrivial=True)
+        return
     cond = np.linalg.cond(m)
     worst = max(X.proj_residual(m @ s.astype(complex), d) for s, d in zip(src, dst))
     ctx.judge("from_points", worst <= 1e-9 * max(1.0, cond), [src, dst], what=f"a source point is not mapped to its target (residual {worst:.3g})", op="from_points", observed=m, nontrivial=True)
@@ -197,6 +200,10 @@ def post_from_points_and_conics(ctx, call):
     args = call.args[1:] if isinstance(call.args[0], type) else call.args
     pts1, pts2, c1, c2 = args
     m = np.asarray(_mat(call.result), dtype=complex)
+    if not np.all(np.isfinite(m)):
+        ctx.judge("from_points_and_conics", False, [[p.array for p in pts1], [p.array for p in pts2], c1, c2], what="the matrix of the transformation has non-finite entries",
+                  op="from_points_and_conics", nontrivial=True)
+        return
     cond = np.linalg.cond(m)
     if cond > 1e8:
         ctx.skip("from_points_and_conics", "ill-conditioned result")
@@ -241,6 +248,15 @@ def g_euclid(ctx, rng, i):
     t = g.translation(*v.tolist())
     g.translation(g.Point(*v.tolist()))
     g.translation(g.Point(np.append(v * 2, 2)))
+    # coordinates as numpy scalars of several types (what unpacking an array yields)
+    for cast in (np.int64, np.int32, np.float32, np.float64):
+        try:
+            vv = np.asarray(v).astype(cast)
+            g.translation(*vv)
+            g.translation(g.Point(*vv))
+            g.scaling(*np.where(vv == 0, cast(2), vv))
+        except Exception as e:
+            ctx.judge("translation", False, [v, str(cast)], what=f"translation / scaling with {cast.__name__} scalar arguments raised {type(e).__name__}: {e}", op="translation(numpy scalars)")
     # p -> p + v on sample points (through apply)
     for _ in range(3):
         p = gen.coords(rng, (dim,), 9, mode)
@@ -344,6 +360,18 @@ def g_from_points(ctx, rng, i):
     lam = [gen.pick(rng, [1, -1, 2, 0.5]) for _ in range(2 * (n + 1))]
     pairs = [(g.Point(s * lam[2 * k]), g.Point(d * lam[2 * k + 1])) for k, (s, d) in enumerate(zip(src, dst))]
     t = g.Transformation.from_points(*pairs)
+    # frames in special position: the origin (or a point of a coordinate axis) among the sources, its target at infinity (and vice versa)
+    o = np.zeros(n, dtype=int)
+    o[-1] = 1
+    inf = np.append(gen.nonzero_vec(rng, n - 1, 3), 0)
+    for s0, d0 in ((o, inf), (inf, o), (o, o)):
+        src2, dst2 = [s0] + [v for v in src[1:]], [d0] + [v for v in dst[1:]]
+        gp = all(X.rank([X.vec(fr[k]) for k in c]) == n for fr in (src2, dst2) for c in itertools.combinations(range(n + 1), n)) if mode == "int" else False
+        if gp:
+            try:
+                g.Transformation.from_points(*[(g.Point(a), g.Point(b)) for a, b in zip(src2, dst2)])
+            except Exception as e:
+                ctx.judge("from_points", False, [src2, dst2], what=f"from_points raised {type(e).__name__}: {e} for frames in general position", op="from_points")
     # the same frame onto itself gives the identity
     t2 = g.Transformation.from_points(*[(p, p) for p, _ in pairs])
     ok = X.proj_residual(np.asarray(t2.array).ravel(), np.eye(n).ravel()) < 1e-8
